@@ -357,7 +357,9 @@ var twin = gen.Twin{New: func() func() bool {
 }}
 
 func lex(t fataler, src []byte) []tok {
-	l := xml.NewLexer(parse.NewInputBytes(src))
+	// the document reaches the lexer in one of the ways a caller can supply it (in place, string, readers)
+	input, _, _ := gen.Supply(src, "' x=\"1\"?>]]>--></a>")
+	l := xml.NewLexer(input)
 	var out []tok
 	for i := 0; i <= len(src)+2; i++ {
 		tt, data := l.Next()
